@@ -426,6 +426,26 @@ func (c06Engine) Gen(g *Gen) {
 		}
 		worlds = append(worlds, c)
 	}
+	// systematic histories on message graphs (chains of 2..5 messages, a fork, a cycle with a tail):
+	// both closures asked of every message top-down, again top-down, bottom-up, top-down - so that a
+	// closure that adopts or aliases a neighbour's memo is asked for again after the neighbour was
+	for _, mw := range msgChainWorlds() {
+		c := mw
+		c.Ops = []opJ{}
+		nm := len(c.Files[0].Msgs)
+		for _, acc := range []string{"dpts", "deps"} {
+			for pass := 0; pass < 4; pass++ {
+				for k := 0; k < nm; k++ {
+					mi := k
+					if pass == 2 {
+						mi = nm - 1 - k
+					}
+					c.Ops = append(c.Ops, opJ{ref{0, []int{4, mi}}, acc})
+				}
+			}
+		}
+		worlds = append(worlds, c)
+	}
 	for i := 0; i < n; i++ {
 		worlds = append(worlds, wWorld{}) // placeholder: generated below
 	}
@@ -513,6 +533,35 @@ func (c06Engine) Gen(g *Gen) {
 		countWorld(g, w)
 		g.Emit(w)
 	}
+}
+
+// msgChainWorlds: one proto3 file `chain.proto`, package `ch`, messages M0..Mk-1 with message-typed
+// fields along the given edges (i -> j: Mi has a field of type Mj).
+func msgChainWorlds() []wWorld {
+	mk := func(k int, edges [][2]int) wWorld {
+		f := wFile{Name: "chain.proto", Pkg: "ch", Syn: "proto3", Deps: []string{}, PublicDeps: []int{}, Enums: []wEnum{}, Msgs: []wMsg{},
+			Services: []wService{}, Exts: []wField{}, Locs: []wLoc{}}
+		for i := 0; i < k; i++ {
+			f.Msgs = append(f.Msgs, wMsg{Head: wMsgHead{Name: fmt.Sprintf("M%d", i), Fields: []wField{}, Enums: []wEnum{}, Oneofs: []string{}, Exts: []wField{}}, Nested: []wMsg{}})
+		}
+		for _, e := range edges {
+			h := &f.Msgs[e[0]].Head
+			h.Fields = append(h.Fields, wField{Name: fmt.Sprintf("f%d", e[1]), Number: len(h.Fields) + 1, Label: 1, Type: 11, TypeName: fmt.Sprintf(".ch.M%d", e[1])})
+		}
+		return wWorld{Files: []wFile{f}, Targets: []string{"chain.proto"}, Bidi: true}
+	}
+	var out []wWorld
+	for k := 2; k <= 5; k++ {
+		var edges [][2]int
+		for i := 0; i+1 < k; i++ {
+			edges = append(edges, [2]int{i, i + 1})
+		}
+		out = append(out, mk(k, edges))
+	}
+	out = append(out, mk(4, [][2]int{{0, 1}, {1, 2}, {0, 3}, {3, 2}}))         // diamond
+	out = append(out, mk(4, [][2]int{{0, 1}, {1, 0}, {1, 2}, {3, 0}}))         // cycle with a tail and a user
+	out = append(out, mk(5, [][2]int{{0, 1}, {0, 2}, {1, 3}, {2, 3}, {3, 4}})) // fork and join, then a tail
+	return out
 }
 
 func init() { register("c06", c06Engine{}) }
